@@ -21,7 +21,11 @@ class C05Spec(explore.Spec):
         extra = [
             alpha.rx(alpha.invalid_for(v)),
             ("set", 1, 0, 2, "0"),
+            ("set", 1, 0, "2", "1"),  # value type given as a numeric string
+            ("set", 1, 0, 2, "on"),  # invalid value: must be refused, never emitted
+            ("set", 1, 0, 3, 250),
             ("set", 1, 1, 22, "1"),
+            alpha.rx(f"253;255;0;0;17;{v}"),
             ("set", 1, 1, 0, "20.5"),
             ("set", 2, 0, 2, "1"),
             ("metric", False),
